@@ -16,6 +16,10 @@ INT_BITS = {"u8": 8, "u16": 16, "u32": 32, "u64": 64, "usize": 64, "u128": 128,
             "i8": 8, "i16": 16, "i32": 32, "i64": 64, "isize": 64}
 
 
+_OP_METHODS = {"add": "Add", "sub": "Sub", "mul": "Mul", "div": "Div", "rem": "Rem", "bitor": "BitOr", "bitand": "BitAnd",
+               "bitxor": "BitXor", "shl": "Shl", "shr": "Shr"}
+
+
 class Undecided(Exception):
     pass
 
@@ -90,6 +94,11 @@ def wx_eval(t, n):
         return t[1] * n + t[2]
     if t[0] == "cast":
         return wx_eval(t[2], n) % (1 << t[1])
+    if t[0] == "neg":
+        return -wx_eval(t[1], n)
+    if t[0] == "lz":
+        v = wx_eval(t[2], n)
+        return t[1] - v.bit_length() if 0 <= v < (1 << t[1]) else 0
     if t[0] == "bin":
         a, b = wx_eval(t[2], n), t[3]
     else:
@@ -101,18 +110,32 @@ def wx_eval(t, n):
             "BitAnd": lambda: a & b, "BitOr": lambda: a | b, "BitXor": lambda: a ^ b, "Shl": lambda: a << b, "Shr": lambda: a >> b}[op]()
 
 
-def wx_monotone(t):
-    """True when the term is non-decreasing in n (for n >= 0, no wrap-around)."""
+def wx_direction(t):
+    """+1 when the term is non-decreasing in n (n >= 0, no wrap-around), -1 when non-increasing, 0 otherwise."""
     if t[0] == "lin":
-        return t[1] >= 0
+        return 1 if t[1] >= 0 else -1
+    if t[0] == "neg":
+        return -wx_direction(t[1])
+    if t[0] == "lz":
+        return -wx_direction(t[2])
+    if t[0] == "cast":
+        return 0
     if t[0] == "bin" and isinstance(t[3], int):
         if t[1] in ("Add", "Sub"):
-            return wx_monotone(t[2])
+            return wx_direction(t[2])
         if t[1] in ("Mul", "Div") and t[3] > 0:
-            return wx_monotone(t[2])
+            return wx_direction(t[2])
         if t[1] in ("Shl", "Shr") and t[3] >= 0:
-            return wx_monotone(t[2])
-    return False
+            return wx_direction(t[2])
+    if t[0] == "rbin" and isinstance(t[2], int):
+        if t[1] == "Sub":
+            return -wx_direction(t[3])
+    return 0
+
+
+def wx_monotone(t):
+    """True when the term is non-decreasing in n (for n >= 0, no wrap-around)."""
+    return wx_direction(t) == 1
 
 
 def wx_threshold(t, c, limit=1 << 64):
@@ -134,6 +157,11 @@ def wx_threshold(t, c, limit=1 << 64):
 def wx_compare(op, v, c):
     """Decide `v <op> c` for a Lin / Wx v and a constant c by the witness; log the thresholds on n."""
     t = wx_term(v)
+    if wx_direction(t) == -1:
+        # a non-increasing term: compare its negation the other way round
+        t = ("neg", t)
+        c = -c
+        op = {"Lt": "Gt", "Gt": "Lt", "Le": "Ge", "Ge": "Le", "Eq": "Eq", "Ne": "Ne"}[op]
     if not wx_monotone(t):
         raise Undecided("comparison of a non-monotone term of the argument (%r) with a constant" % (t,))
     need = {"Lt": (c,), "Ge": (c,), "Le": (c + 1,), "Gt": (c + 1,), "Eq": (c, c + 1), "Ne": (c, c + 1)}[op]
@@ -680,6 +708,8 @@ class PE:
                     # the rule wants to see the comparison itself (an overloaded `==` is the operands' own eq)
                     self.events.append(("eq", op, vkey(a), vkey(b)))
                     return Sym(("eq" if op == "Eq" else "ne", vkey(a), vkey(b)))
+                if vkey(a) == vkey(b):
+                    return op == "Eq"           # the same symbol on both sides is the same value
                 r = self.decide(("cmp", op, vkey(a), vkey(b)), e)
                 return r
             r = (vkey(a) == vkey(b))
@@ -993,6 +1023,8 @@ class PE:
         if callee is None and fn.get("res_kind") == "Unresolved" and fn.get("krate") == self.F.data["crate"]:
             # a trait method called on a type parameter inside a generic helper: dispatch on the instantiation we are in
             conc = self._tymap().get((fn.get("self_ty") or "").lstrip("&").replace("mut ", ""))
+            if not conc and args and isinstance(args[0], Adt) and args[0].adt in self.F.adts:
+                conc = args[0].adt              # the receiver is a concrete value of a crate type: dispatch on it
             if conc:
                 for imp in self.F.impls:
                     if imp.get("trait") == fn.get("trait") and imp.get("self_ty") == conc:
@@ -1149,6 +1181,21 @@ class PE:
             return Sym(("default", e.get("ty")), e.get("ty"))
         if name == "new" and d.startswith("core::ops::range::RangeInclusive") and len(args) == 2:
             return Adt("core::ops::range::RangeInclusive", "RangeInclusive", {"start": args[0], "end": args[1]})
+        if name in _OP_METHODS and len(args) == 2 and ("core::ops::" in d or "core::ops::" in (e["fn"].get("trait") or "")):
+            # an operator used through its trait on primitive operands (`flags | mask` with mask: &u8)
+            ty_ = e.get("ty") or ""
+            if ty_ in INT_BITS or ty_ == "bool":
+                fake = {"k": "Binary", "op": _OP_METHODS[name], "ty": ty_, "sp": e.get("sp"),
+                        "l": {"k": "__val", "v": args[0]}, "r": {"k": "__val", "v": args[1]}}
+                return self.x_Binary(fake, {})
+        if name == "discriminant" and d.startswith("core::mem") and len(args) == 1 and isinstance(a0, Adt):
+            return Adt("core::mem::Discriminant", "%s::%s" % (a0.adt, a0.variant))
+        if name in ("leading_zeros",) and len(args) == 1 and isinstance(a0, (Lin, Wx)):
+            bits_ = INT_BITS.get(e["fn"].get("impl_self") or "", 64)
+            return Wx(("lz", bits_, wx_term(a0)), a0.w, a0.log)
+        if name in ("leading_zeros",) and len(args) == 1 and isinstance(a0, int) and not isinstance(a0, bool):
+            bits_ = INT_BITS.get(e["fn"].get("impl_self") or "", 64)
+            return bits_ - a0.bit_length()
         if name == "len_utf8" and len(args) == 1 and isinstance(a0, int) and not isinstance(a0, bool):
             return 1 if a0 < 0x80 else 2 if a0 < 0x800 else 3 if a0 < 0x10000 else 4
         if name == "len_utf16" and len(args) == 1 and isinstance(a0, int) and not isinstance(a0, bool):
@@ -1218,6 +1265,31 @@ class PE:
             return some(items[args[1]]) if 0 <= args[1] < len(items) else NONE
         if name in ("first", "last") and len(args) == 1 and not is_iter:
             return (some(items[0 if name == "first" else -1]) if items else NONE)
+        if name in ("binary_search", "binary_search_by_key") and len(args) in (2, 3) and not is_iter:
+            keys = [self.apply(args[2], [x]) for x in items] if name == "binary_search_by_key" else list(items)
+            k_ = args[1]
+            if all(isinstance(x, int) and not isinstance(x, bool) for x in keys) and isinstance(k_, int) and keys == sorted(keys):
+                if k_ in keys:
+                    return ok(keys.index(k_))
+                return err(sum(1 for x in keys if x < k_))
+            raise Undecided("binary search over %r" % (keys[:4],))
+        if name in ("fold", "try_fold") and len(args) == 3:
+            acc = args[1]
+            for x in items:
+                acc = self.apply(args[2], [acc, x])
+                if name == "try_fold":
+                    if isinstance(acc, Adt) and acc.variant in ("Err", "None"):
+                        return acc
+                    if isinstance(acc, Adt) and acc.variant in ("Ok", "Some"):
+                        acc = acc.fields.get("0", UNIT)
+            return acc if name == "fold" else ok(acc)
+        if name in ("sum", "product") and len(args) == 1 and all(isinstance(x, int) and not isinstance(x, bool) for x in items):
+            if name == "sum":
+                return sum(items)
+            r_ = 1
+            for x in items:
+                r_ *= x
+            return r_
         if name in ("try_for_each", "for_each") and len(args) == 2:
             for x in items:
                 r = self.apply(args[1], [x])
